@@ -1,19 +1,748 @@
 """C13 - shorten-compressed SPHERE audio decodes losslessly (engine M: model + trace replay).
 
-(first stage: the six sph2pipe reference vectors; the format model / encoder and the
-command-sequence exploration are in mc/refs/shorten.py and added below)
+The decoder (copy_shortened_samples) is one monolithic function that cannot be stepped, so
+the state machine is explored on the reference model of the *format* in mc/refs/shorten.py;
+every trace the exploration produces is serialised by the model's independent encoder,
+wrapped in a SPHERE header and decoded by the REAL decoder through
+pydrobert.speech.util.read_signal(..., force_as="sph"), which must return exactly the
+samples the trace encodes (shape (n,) / (n, channels), int16; raw codes as uint8 for mu-law).
+
+Sub-checks
+  vectors        the six sph2pipe vectors decode to their reference WAVs (path and stream)
+  model_vectors  the MODEL's own decoder reads the same vectors (validates the oracle)
+  ulaw_tables    the mu-law inward order derived from G.711 is the inverse of the decoder's table
+  sequences      (a) every valid command sequence up to depth d over the 14-command alphabet
+  sequences_core (a) one level deeper for the core headers and their variants
+  model_bfs      (b) BFS on the model, states merged by control state, one real decode per transition
+  long_stream    streams long enough for the bit reader to refill its buffer; prefixes cut at the refills
+  truncation     every byte prefix that cuts a bit of a command => IOError
+  bad_command    function codes >= 9 => IOError
+  bad_version    version bytes outside {1, 2} => IOError
+
+Validity (a false alarm is worse than a miss): only streams a conforming encoder can emit are
+generated - BLOCKSIZE / BITSHIFT only between frames, never a block longer than the header's
+block size, QLPC only in blocks at least as long as the predictor history max(3, maxnlpc),
+PCM samples multiples of 2**bitshift inside the 16-bit range, mu-law codes representable at
+the shift in force, and every stream ends on a frame boundary (the trace is completed with
+DIFF0 blocks for the remaining channels before QUIT).  Sequences that cannot be made valid
+(e.g. an all-zero DIFF1 residual whose repeated sample leaves the 16-bit range after a
+BITSHIFT) are counted as skipped.
 """
 import glob
+import io
+import itertools
+import multiprocessing
 import os
+import signal
+import warnings
+from collections import deque
 
 import numpy as np
 
-from .. import computers, core
+from .. import computers, core, sig
+from ..refs import shorten as S
 
 LEVEL = "model_checking"
 ASSUMPTIONS = [
     "the sph2pipe reference WAVs (tests/audio/123_*.wav) are the ground truth for the vectors",
+    "oracle: mc/refs/shorten.py (format model + independent encoder, plain ints); validated by its "
+    "own decoder on the six sph2pipe vectors (version 2, DIFF0-3, mean length 0/4, mu-law shift 0); "
+    "version 1, QLPC, ZERO, BLOCKSIZE and BITSHIFT semantics come from the shorten format description",
+    "command alphabet (14): DIFF0-3 minimal width, DIFF1 width 0, DIFF1 width 5, QLPC order 1/2/3 with "
+    "coefficients [31], [31,-8], [11,31,-8], ZERO, BLOCKSIZE->1/3, BITSHIFT->0/2; block commands act "
+    "on the current channel; BLOCKSIZE/BITSHIFT only at frame boundaries; QUIT closes every trace",
+    "sample values: a fixed generic sequence per channel (|x| < ~2500, function of VERIF_SEED and "
+    "index) with planted extremes 32767, -32768, -32767, runs of zeros (mu-law: 0x80, 0x00, -0, +0), "
+    "floored to multiples of 2**bitshift / moved to a representable code where the format requires it",
+    "mu-law with bitshift > 0: which codes are representable is the rule '(16+m)<<e - 16 is a multiple "
+    "of 2**shift', cross-checked against the decoder's table by the ulaw_tables sub-check",
+    "model_bfs merges states by bit cursor mod 32, channel cursor, block size, bit shift and the "
+    "provenance (initial / written under which shift) of every history and mean slot; sample values "
+    "are excluded because the decoder never branches on them except through the value classes the "
+    "alphabet already contains (zero mean, mu-law -0 / sign)",
 ]
+
+# ------------------------------------------------------------------ alphabet
+
+ALPHABET = [
+    ["DIFF", 0, "min"], ["DIFF", 1, "min"], ["DIFF", 2, "min"], ["DIFF", 3, "min"],
+    ["DIFF", 1, 0], ["DIFF", 1, 5],
+    ["QLPC", [31]], ["QLPC", [31, -8]], ["QLPC", [11, 31, -8]],
+    ["ZERO"],
+    ["BLOCKSIZE", 1], ["BLOCKSIZE", 3],
+    ["BITSHIFT", 0], ["BITSHIFT", 2],
+]
+QLPC4 = ["QLPC", [11, 31, -8, -8]]     # replaces the order-3 QLPC when the header allows order 4
+FILLER = ["DIFF", 0, "min"]
+NVAL = 96                               # period of the value sequence (samples per channel)
+
+
+def alphabet(h):
+    if h["maxnlpc"] >= 4:
+        return [QLPC4 if op == ["QLPC", [11, 31, -8]] else op for op in ALPHABET]
+    return ALPHABET
+
+
+def op_name(op):
+    if op[0] == "DIFF":
+        return "DIFF%d%s" % (op[1], "" if op[2] == "min" else "w%d" % op[2])
+    if op[0] == "QLPC":
+        return "QLPC%d" % len(op[1])
+    if op[0] == "ZERO":
+        return "ZERO"
+    return "%s%d" % ("BS" if op[0] == "BLOCKSIZE" else "SH", op[1])
+
+
+class Values:
+    """fixed data alphabet: per channel a generic integer sequence with planted extremes"""
+
+    _cache = {}
+
+    def __init__(self, seed):
+        self.pcm, self.code = [], []
+        for c in range(3):
+            g = np.rint(sig.signal(seed, NVAL, offset=31 + c) * 650.0).astype(np.int64).tolist()
+            code = [(x * 5 + 3 * c) & 0xFF for x in g]
+            plant = {2: (32767, 0x80), 3: (-32768, 0x00), 6: (-32767, 0x7F), 7: (0, 0xFF),
+                     9: (0, 0xFF), 10: (0, 0xFF), 11: (0, 0x7F), 13: (32767, 0x80), 14: (32767, 0x81),
+                     17: (-32768, 0x00), 18: (32767, 0x80), 19: (-32768, 0x01)}
+            for t, (x, k) in plant.items():
+                for rep in range(0, NVAL, 32):
+                    g[(t + c + rep) % NVAL] = x
+                    code[(t + c + rep) % NVAL] = k
+            self.pcm.append(g)
+            self.code.append(code)
+
+    @classmethod
+    def get(cls, seed):
+        v = cls._cache.get(seed)
+        if v is None:
+            v = cls._cache[seed] = cls(seed)
+        return v
+
+    def targets(self, enc):
+        c, t0, s = enc.chan, len(enc.out[enc.chan]), enc.bitshift
+        if enc.ftype == S.TYPE_AU2:
+            mm = S.UlawMap.get(s)
+            return [mm.nearest(self.code[c][(t0 + i) % NVAL]) for i in range(enc.blocksize)]
+        return [(self.pcm[c][(t0 + i) % NVAL] >> s) << s for i in range(enc.blocksize)]
+
+
+def make_encoder(h):
+    return S.Encoder(h["version"], h["ftype"], h["nchan"], h["bs0"], h["maxnlpc"], h["nmean"])
+
+
+def enabled(enc, op):
+    """structural validity of a command in a model state (the property's precondition)"""
+    if op[0] == "QLPC":
+        return enc.blocksize >= enc.nwrap and len(op[1]) <= enc.maxnlpc
+    if op[0] == "BLOCKSIZE":
+        return enc.chan == 0 and op[1] <= enc.bs0
+    if op[0] == "BITSHIFT":
+        return enc.chan == 0
+    return True
+
+
+def apply_op(enc, op, vals):
+    """append one command; raises S.InvalidTrace if no valid stream contains it here"""
+    if op[0] == "DIFF":
+        if op[2] == 0:
+            enc.diff(op[1], enc.forced_targets("DIFF1"), 0)
+        else:
+            enc.diff(op[1], vals.targets(enc), op[2])
+    elif op[0] == "QLPC":
+        enc.qlpc(op[1], vals.targets(enc))
+    elif op[0] == "ZERO":
+        enc.forced_targets("ZERO")
+        enc.zero()
+    elif op[0] == "BLOCKSIZE":
+        enc.blocksize_cmd(op[1])
+    elif op[0] == "BITSHIFT":
+        enc.bitshift_cmd(op[1])
+    else:
+        raise core.HarnessError("unknown op %r" % (op,))
+
+
+def close_trace(enc, vals, final_short):
+    """complete the frame, make sure there is at least one frame, optional shorter final block, QUIT"""
+    while enc.chan != 0 or enc.frames() == 0:
+        apply_op(enc, FILLER, vals)
+    if final_short and enc.blocksize > 1:
+        enc.blocksize_cmd(enc.blocksize - 1)
+        for _ in range(enc.nchan):
+            apply_op(enc, ["DIFF", 2, "min"], vals)
+    enc.quit()
+
+
+# ------------------------------------------------------------------ the real decoder
+
+
+class DecodeTimeout(Exception):
+    """the decoder did not return (e.g. a bit reader spinning on an exhausted stream)"""
+
+
+def _on_alarm(signum, frame):
+    raise DecodeTimeout("no result after %d s" % DECODE_LIMIT_S)
+
+
+DECODE_LIMIT_S = 20      # the streams decode in well under 1 s; this only turns a hang into a verdict
+
+
+def hung(viol):
+    return any(v["tags"].get("exc") == "DecodeTimeout" for v in viol)
+
+
+HANG_CAP = "stopped the point after 2 decoder hangs (%d s each)" % DECODE_LIMIT_S
+
+
+def real_decode(filebytes, dtype=None):
+    from pydrobert.speech import util
+
+    old = signal.signal(signal.SIGALRM, _on_alarm)
+    signal.setitimer(signal.ITIMER_REAL, DECODE_LIMIT_S)
+    try:
+        with warnings.catch_warnings(record=True) as wl:
+            warnings.simplefilter("always")
+            try:
+                r = util.read_signal(io.BytesIO(filebytes), dtype=dtype, force_as="sph")
+            except Exception as e:  # the oracle decides
+                return ("exc", e, [str(w.message) for w in wl])
+        return ("ok", r, [str(w.message) for w in wl])
+    finally:
+        signal.setitimer(signal.ITIMER_REAL, 0)
+        signal.signal(signal.SIGALRM, old)
+
+
+def _want(enc, raw):
+    if raw:
+        a = np.array(enc.out, dtype=np.uint8).T
+    else:
+        a = np.array(S.expected_pcm(enc), dtype=np.int16).T
+    return a[:, 0] if enc.nchan == 1 else a
+
+
+def _base_tags(h):
+    return dict(version=h["version"], ftype=h["ftype"], nmean_pos=h["nmean"] > 0)
+
+
+def check_decode(h, enc, case, raw=False):
+    """decode enc's stream with the real decoder and compare; -> list of violations"""
+    fb = enc.sphere_file()
+    case = dict(case, raw=raw)
+    r = real_decode(fb, np.uint8 if raw else None)
+    tags = _base_tags(h)
+    tags["raw"] = raw
+    names = [b[3] for b in enc.blocks]
+    shown = " ".join(names[:30]) + (" ... (%d blocks)" % len(names) if len(names) > 30 else "")
+    if r[0] == "exc":
+        tags.update(what="exception", exc=type(r[1]).__name__,
+                    any_bitshift=any(b[5] for b in enc.blocks),
+                    any_qlpc=any(n.startswith("QLPC") for n in names))
+        return [core.violation(tags, "valid stream (%s) raised %s: %s" % (
+            shown, type(r[1]).__name__, str(r[1])[:200]), case)]
+    got, want = r[1], _want(enc, raw)
+    if not isinstance(got, np.ndarray) or got.shape != want.shape or got.dtype != want.dtype:
+        tags.update(what="decode_mismatch", aspect="shape_dtype", multi=h["nchan"] > 1)
+        return [core.violation(tags, "expected %s %s, decoder returned %s %s (warnings %s)" % (
+            want.shape, want.dtype, getattr(got, "shape", None), getattr(got, "dtype", None), r[2]),
+            case)]
+    if np.array_equal(got, want):
+        return []
+    g2, w2 = got.reshape(want.shape[0], -1), want.reshape(want.shape[0], -1)
+    i, c = [int(x) for x in np.argwhere(g2 != w2)[0]]
+    b = enc.block_of(c, i)
+    tags.update(what="decode_mismatch", aspect="values", cmd=b[3], bitshift_pos=b[5] > 0,
+                short_block=b[4] < enc.nwrap, multi=h["nchan"] > 1)
+    return [core.violation(tags, "commands %s: first difference at sample %d channel %d (block %s, "
+                           "offset %d in block, block size %d, shift %d): expected %s got %s" % (
+                               shown, i, c, b[3], i - b[1], b[4], b[5],
+                               w2[max(0, i - 2):i + 3, c].tolist(), g2[max(0, i - 2):i + 3, c].tolist()),
+                           case)]
+
+
+def run_trace(h, ops, seed, mode="both"):
+    """-> (status, violations, encoder) for one complete trace (ops are JSON commands)"""
+    vals = Values.get(seed)
+    enc = make_encoder(h)
+    try:
+        for op in ops:
+            if not enabled(enc, op):
+                return "disabled", [], None
+            apply_op(enc, op, vals)
+        close_trace(enc, vals, h.get("final_short", False))
+    except S.InvalidTrace:
+        return "invalid", [], None
+    case = dict(kind="trace", header=h, ops=ops)
+    ulaw = h["ftype"] == S.TYPE_AU2
+    viol = []
+    if mode != "raw" or not ulaw:
+        viol = check_decode(h, enc, case)
+    if mode != "pcm" and ulaw and not viol:
+        viol = check_decode(h, enc, case, raw=True)
+    return "ok", viol, enc
+
+
+def replay_trace(case, seed):
+    st, viol, enc = run_trace(case["header"], case["ops"], seed, mode="raw" if case.get("raw") else "pcm")
+    if st != "ok":
+        raise core.HarnessError("replayed trace is %s" % st)
+    return core.result(viol, obs=core.sig_hash(enc.out))
+
+
+# ------------------------------------------------------------------ (a) exhaustive sequences
+
+
+def headers24():
+    out = []
+    for version, ftype, nchan, nmean in itertools.product((1, 2), (3, 5, 8), (1, 2), (0, 4)):
+        out.append(dict(version=version, ftype=ftype, nchan=nchan, nmean=nmean, bs0=4, maxnlpc=3,
+                        final_short=False))
+    return out
+
+
+def core_headers():
+    """4 core headers (version x {S16HL, mu-law}, 2 channels, mean length 4) and their variants"""
+    out = []
+    for version, ftype in itertools.product((1, 2), (3, 8)):
+        base = dict(version=version, ftype=ftype, nchan=2, nmean=4, bs0=4, maxnlpc=3, final_short=False)
+        out.append(base)
+        out.append(dict(base, nchan=3))
+        out.append(dict(base, bs0=2))
+        out.append(dict(base, nmean=1))
+        out.append(dict(base, final_short=True))
+        out.append(dict(base, nchan=1, maxnlpc=4, nmean=1, final_short=True))
+    return out
+
+
+def _seq_point(p, seed):
+    """every valid extension (up to p['depth'] commands) of the prefix p['prefix']"""
+    h, depth = p["header"], p["depth"]
+    alpha = alphabet(h)
+    vals = Values.get(seed)
+    enc0 = make_encoder(h)
+    st = dict(evals=0, skipped=0, viol=[], digest=[], blocks=0, hung=0)
+    try:
+        for k in p["prefix"]:
+            if not enabled(enc0, alpha[k]):
+                return core.result([], nontrivial=False, evals=0, nontrivial_count=0, skipped=0,
+                                   impl_calls=0, obs="disabled-prefix")
+            apply_op(enc0, alpha[k], vals)
+    except S.InvalidTrace:
+        return core.result([], nontrivial=False, evals=0, nontrivial_count=0, skipped=1,
+                           impl_calls=0, obs="invalid-prefix")
+
+    def leaf(enc, seq):
+        if st["hung"] >= 2:
+            return
+        e = enc.copy()
+        try:
+            close_trace(e, vals, h.get("final_short", False))
+        except S.InvalidTrace:
+            st["skipped"] += 1
+            return
+        case = dict(kind="trace", header=h, ops=[alpha[k] for k in seq])
+        v = check_decode(h, e, case)
+        st["evals"] += 1
+        if p.get("raw_too") and h["ftype"] == S.TYPE_AU2 and not v:
+            v = check_decode(h, e, case, raw=True)
+            st["evals"] += 1
+        st["blocks"] += len(e.blocks)
+        st["digest"].append(hash(e.w.acc))
+        if v and len(st["viol"]) < 6:
+            st["viol"].extend(v)
+        st["hung"] += hung(v)
+
+    def rec(enc, seq):
+        leaf(enc, seq)
+        if len(seq) >= depth or st["hung"] >= 2:
+            return
+        for k, op in enumerate(alpha):
+            if not enabled(enc, op):
+                continue
+            e = enc.copy()
+            try:
+                apply_op(e, op, vals)
+            except S.InvalidTrace:
+                st["skipped"] += 1
+                continue
+            rec(e, seq + [k])
+
+    rec(enc0, list(p["prefix"]))
+    return core.result(st["viol"], nontrivial=st["evals"] > 0, evals=st["evals"],
+                       nontrivial_count=st["evals"], skipped=st["skipped"], impl_calls=st["evals"],
+                       obs=core.sig_hash(st["digest"]), capped=HANG_CAP if st["hung"] >= 2 else None,
+                       sample=dict(header=h, prefix=[op_name(alpha[k]) for k in p["prefix"]],
+                                   traces=st["evals"], blocks_decoded=st["blocks"]))
+
+
+def _seq_points(headers, depth, plen, raw_too):
+    pts = []
+    for h in headers:
+        for shorter in range(1, plen):      # sequences shorter than the point prefix
+            for pre in itertools.product(range(len(ALPHABET)), repeat=shorter):
+                pts.append(dict(header=h, prefix=list(pre), depth=shorter, raw_too=raw_too))
+        for pre in itertools.product(range(len(ALPHABET)), repeat=plen):
+            pts.append(dict(header=h, prefix=list(pre), depth=depth, raw_too=raw_too))
+    return pts
+
+
+# ------------------------------------------------------------------ (b) BFS on the model
+
+
+def _state_key(enc, fine=False):
+    key = (enc.w.n % 32,) + enc.control_key()
+    if fine:
+        # additionally: which kind of command produced the latest block of every channel
+        last = [None] * enc.nchan
+        for b in enc.blocks:
+            last[b[0]] = b[3][:4]
+        key += (tuple(last),)
+    return key
+
+
+def bfs_plan(args):
+    """BFS on the MODEL only (no implementation call): -> (groups, states, skipped, max depth);
+    a group is (history that reaches an expanded state, [command index of every valid
+    transition out of it], number of those that discovered a new state)"""
+    h, seed, depth, fine = args
+    alpha = alphabet(h)
+    vals = Values.get(seed)
+    e0 = make_encoder(h)
+    seen = {_state_key(e0, fine)}
+    frontier = deque([(e0, ())])
+    groups, skipped, maxd = [], 0, 0
+    while frontier:
+        e, hist = frontier.popleft()
+        if len(hist) >= depth:
+            continue
+        ks, nnew = [], 0
+        for k, op in enumerate(alpha):
+            if not enabled(e, op):
+                continue
+            e2 = e.copy()
+            try:
+                apply_op(e2, op, vals)
+            except S.InvalidTrace:
+                skipped += 1
+                continue
+            key = _state_key(e2, fine)
+            if key not in seen:
+                seen.add(key)
+                frontier.append((e2, hist + (k,)))
+                maxd = max(maxd, len(hist) + 1)
+                nnew += 1
+            ks.append(k)
+        groups.append((list(hist), ks, nnew))
+    return groups, len(seen), skipped, maxd
+
+
+def _bfs_point(p, seed):
+    h = p["header"]
+    alpha = alphabet(h)
+    vals = Values.get(seed)
+    raw = h["ftype"] == S.TYPE_AU2     # mu-law: compare the codes themselves (keeps -0 / +0 apart)
+    viol, evals, skipped, ntrans, digest, last, nhung = [], 0, 0, 0, [], None, 0
+    for hist, ks, _ in p["groups"]:
+        if nhung >= 2:
+            break
+        enc0 = make_encoder(h)
+        for k in hist:
+            apply_op(enc0, alpha[k], vals)      # valid by construction of the plan
+        for k in ks:
+            ntrans += 1
+            enc = enc0.copy()
+            apply_op(enc, alpha[k], vals)
+            try:
+                close_trace(enc, vals, h.get("final_short", False))
+            except S.InvalidTrace:
+                skipped += 1     # the frame cannot be completed validly after this transition
+                continue
+            last = hist + [k]
+            v = check_decode(h, enc, dict(kind="trace", header=h, ops=[alpha[j] for j in last]), raw=raw)
+            evals += 1
+            digest.append(hash(enc.w.acc))
+            if v and len(viol) < 6:
+                viol.extend(v)
+            nhung += hung(v)
+            if nhung >= 2:
+                break
+    return core.result(viol, nontrivial=evals > 0, evals=evals, nontrivial_count=evals,
+                       capped=HANG_CAP if nhung >= 2 else None, states=p["new_states"], transitions=ntrans, impl_calls=evals,
+                       skipped=skipped + p.get("plan_skipped", 0), obs=core.sig_hash(digest),
+                       sample=dict(header=h, trace=[op_name(alpha[k]) for k in (last or [])],
+                                   transitions=ntrans, max_depth=p.get("max_depth")))
+
+
+def bfs_headers(tier):
+    hs = []
+    for version, ftype, nchan in itertools.product((1, 2), (3, 8), (1, 2)):
+        hs.append(dict(version=version, ftype=ftype, nchan=nchan, nmean=4, bs0=4, maxnlpc=3,
+                       final_short=False))
+    if tier == "thorough":
+        hs = [h for h in headers24()]
+        for h in core_headers():
+            if h not in hs:
+                hs.append(h)
+    return hs
+
+
+def _bfs_points(hs, seed, depth, fine=False):
+    jobs = [(h, seed, depth, fine) for h in hs]
+    if core.NPROC > 1 and len(jobs) > 1:
+        ctx = multiprocessing.get_context("fork")
+        with ctx.Pool(min(core.NPROC, len(jobs))) as pool:
+            plans = pool.map(bfs_plan, jobs, 1)
+    else:
+        plans = [bfs_plan(j) for j in jobs]
+    pts, chunk = [], 400
+    for h, (groups, nstates, skipped, maxd) in zip(hs, plans):
+        cur, n, first = [], 0, True
+        for g in groups + [None]:
+            if g is not None:
+                cur.append(g)
+                n += len(g[1])
+            if cur and (g is None or n >= chunk):
+                pts.append(dict(header=h, groups=cur, max_depth=maxd,
+                                new_states=sum(x[2] for x in cur) + (1 if first else 0),
+                                plan_skipped=skipped if first else 0))
+                cur, n, first = [], 0, False
+        if sum(g[2] for g in groups) + 1 != nstates:
+            raise core.HarnessError("BFS bookkeeping")
+    return pts
+
+
+# ------------------------------------------------------------------ faults
+
+FAULT_OPS = [["DIFF", 0, "min"], ["QLPC", [11, 31, -8]], ["BITSHIFT", 2], ["DIFF", 2, "min"], ["ZERO"],
+             ["BLOCKSIZE", 1], ["DIFF", 1, 5], ["DIFF", 3, "min"]]
+
+
+def fault_headers():
+    out = []
+    for version, ftype, nchan in itertools.product((1, 2), (3, 8), (1, 2)):
+        out.append(dict(version=version, ftype=ftype, nchan=nchan, nmean=4, bs0=4, maxnlpc=3,
+                        final_short=False))
+    out.append(dict(version=2, ftype=5, nchan=3, nmean=0, bs0=3, maxnlpc=0, final_short=False))
+    return out
+
+
+def fault_stream(h, seed, nops=None, bad_code=None):
+    """a valid stream with every block command repeated for every channel; optionally an undefined
+    function code after the first `nops` commands (then QUIT, so that only the code is wrong)"""
+    vals = Values.get(seed)
+    enc = make_encoder(h)
+    n = 0
+    for op in FAULT_OPS:
+        if nops is not None and n >= nops:
+            break
+        if not enabled(enc, op):
+            continue
+        reps = 1 if op[0] in ("BLOCKSIZE", "BITSHIFT") else h["nchan"]
+        for _ in range(reps):
+            apply_op(enc, op, vals)
+        n += 1
+    if bad_code is not None:
+        if enc.frames() == 0:
+            for _ in range(h["nchan"]):
+                apply_op(enc, FILLER, vals)
+        enc.raw_command(bad_code)
+    enc.quit()
+    return enc
+
+
+def _is_ioerror(e):
+    return isinstance(e, OSError)
+
+
+def _fault_verdict(h, r, what, detail, case, extra=None):
+    """r is real_decode's result for a stream that must raise IOError"""
+    tags = dict(what=what)
+    tags.update(extra or {})
+    if tags.get("stage") != "version_byte":     # before the version byte nothing of the header matters
+        tags.update(version=h["version"], ftype=h["ftype"])
+    if r[0] == "ok":
+        return [core.violation(tags, "%s: returned %s instead of raising IOError (warnings %s)" % (
+            detail, "array%s" % (getattr(r[1], "shape", "?"),), r[2]), case)]
+    if not _is_ioerror(r[1]):
+        tags.update(what="exception", fault=what, exc=type(r[1]).__name__)
+        return [core.violation(tags, "%s: raised %s (%s) instead of IOError" % (
+            detail, type(r[1]).__name__, str(r[1])[:200]), case)]
+    return []
+
+
+def _trunc_point(p, seed):
+    h = p["header"]
+    enc = fault_stream(h, seed)
+    fb = enc.sphere_file()
+    first = 1024 + 5                      # SPHERE header, magic, version byte
+    last_cmd_bit = enc.cmd_ends[-1]       # stream bits up to and including QUIT
+    lengths = [p["length"]] if "length" in p else range(first - 1, len(fb))
+    viol, evals, skipped, nhung = [], 0, 0, 0
+    for L in lengths:
+        if 8 * (L - first) >= last_cmd_bit:
+            skipped += 1                  # only padding is cut: nothing demanded
+            continue
+        r = real_decode(fb[:L])
+        evals += 1
+        stage = "version_byte" if L < first else \
+            "header_fields" if 8 * (L - first) < enc.header_end else "commands"
+        v = _fault_verdict(h, r, "truncated_accepted", "prefix of %d/%d bytes (cuts %s)" % (
+            L, len(fb), stage), dict(kind="prefix", header=h, length=L), dict(stage=stage))
+        if len(viol) < 6:
+            viol.extend(v)
+        nhung += hung(v)
+        if nhung >= 2:
+            break
+    if len(fb) - first < 8 or last_cmd_bit <= enc.header_end:
+        raise core.HarnessError("fault stream too small")
+    return core.result(viol, nontrivial=evals > 0, evals=evals, nontrivial_count=evals,
+                       skipped=skipped, impl_calls=evals, obs=len(fb), capped=HANG_CAP if nhung >= 2 else None,
+                       sample=dict(header=h, file_bytes=len(fb), prefixes=evals,
+                                   commands=[b[3] for b in enc.blocks]))
+
+
+BAD_CODES = list(range(9, 33)) + [63, 64, 100, 255]
+
+
+def _badcmd_point(p, seed):
+    h = p["header"]
+    viol, evals, nhung = [], 0, 0
+    pairs = [(p["nops"], p["code"])] if "code" in p else \
+        [(n, c) for n in range(0, len(FAULT_OPS) + 1) for c in BAD_CODES]
+    ends = set()
+    for nops, code in pairs:
+        enc = fault_stream(h, seed, nops=nops, bad_code=code)
+        ends.add((enc.cmd_ends[-3] if len(enc.cmd_ends) > 2 else enc.header_end) % 32)
+        r = real_decode(enc.sphere_file())
+        evals += 1
+        v = _fault_verdict(h, r, "bad_command_accepted",
+                           "function code %d after %d valid commands" % (code, len(enc.cmd_ends) - 2),
+                           dict(kind="badcmd", header=h, nops=nops, code=code))
+        if len(viol) < 6:
+            viol.extend(v)
+        nhung += hung(v)
+        if nhung >= 2:
+            break
+    # sanity: the same stream without the bad code decodes (the fault is the only thing wrong)
+    ok = real_decode(fault_stream(h, seed).sphere_file())
+    return core.result(viol, nontrivial=ok[0] == "ok", evals=evals, nontrivial_count=evals,
+                       impl_calls=evals + 1, obs=sorted(ends), capped=HANG_CAP if nhung >= 2 else None,
+                       sample=dict(header=h, cases=evals))
+
+
+def _badver_point(p, seed):
+    h = p["header"]
+    enc = fault_stream(h, seed)
+    viol, evals, nhung = [], 0, 0
+    for b in ([p["byte"]] if "byte" in p else range(256)):
+        if b in (1, 2):
+            continue
+        r = real_decode(enc.sphere_file(version_byte=b))
+        evals += 1
+        v = _fault_verdict(h, r, "bad_version_accepted", "version byte %d" % b,
+                           dict(kind="badver", header=h, byte=b))
+        if len(viol) < 6:
+            viol.extend(v)
+        nhung += hung(v)
+        if nhung >= 2:
+            break
+    ok = real_decode(enc.sphere_file())
+    return core.result(viol, nontrivial=ok[0] == "ok", evals=evals, nontrivial_count=evals,
+                       impl_calls=evals + 1, obs=core.sig_hash(h), capped=HANG_CAP if nhung >= 2 else None,
+                       sample=dict(header=h, bytes=evals))
+
+
+# ------------------------------------------------------------------ long streams (reader refills)
+
+LONG_CYCLE = [["DIFF", 0, "min"], ["DIFF", 1, "min"], ["QLPC", [11, 31, -8]], ["DIFF", 2, "min"],
+              ["ZERO"], ["DIFF", 1, 5], ["BITSHIFT", 2], ["DIFF", 3, "min"], ["QLPC", [31]],
+              ["DIFF", 0, "min"], ["DIFF", 1, 0], ["BITSHIFT", 0], ["QLPC", [31, -8]], ["DIFF", 2, 5]]
+FIRST_READ, REFILL = 16384, 1024      # the reader's first read and the size it tops its buffer up to
+
+
+def long_headers():
+    return [dict(version=2, ftype=3, nchan=2, nmean=4, bs0=256, maxnlpc=3, final_short=True),
+            dict(version=1, ftype=8, nchan=1, nmean=4, bs0=256, maxnlpc=3, final_short=True),
+            dict(version=2, ftype=5, nchan=3, nmean=0, bs0=64, maxnlpc=3, final_short=True)]
+
+
+def long_stream(h, seed):
+    """block size 256 / 64 like real files, long enough for the reader to refill its buffer at
+    least three times, shorter final block"""
+    vals = Values.get(seed)
+    enc = make_encoder(h)
+    k = 0
+    while enc.w.n < 8 * (FIRST_READ + 3 * REFILL + 200):
+        op = LONG_CYCLE[k % len(LONG_CYCLE)]
+        k += 1
+        for _ in range(1 if op[0] == "BITSHIFT" else h["nchan"]):
+            try:
+                apply_op(enc, op, vals)
+            except S.InvalidTrace:
+                apply_op(enc, FILLER, vals)
+    enc.blocksize_cmd(enc.blocksize // 3)
+    for _ in range(h["nchan"]):
+        apply_op(enc, ["DIFF", 2, "min"], vals)
+    enc.quit()
+    return enc
+
+
+def long_cut_groups(h, seed):
+    """prefix lengths around the points where the reader runs out of buffered bytes, and the tail"""
+    enc = long_stream(h, seed)
+    n = len(enc.sphere_file())
+    groups = []
+    b = 1024 + FIRST_READ
+    groups.append(list(range(b - 5, b + 6)))
+    b += REFILL - 3                      # 16384 - 5 leaves 3 bytes, topped up to 1024
+    while b < n - 12 and len(groups) < 4:
+        groups.append(list(range(b - 4, b + 5)))
+        b += REFILL
+    groups.append(list(range(n - 9, n)))
+    return groups
+
+
+def _long_point(p, seed):
+    h = p["header"]
+    enc = long_stream(h, seed)
+    fb = enc.sphere_file()
+    if "cuts" not in p:
+        case = dict(kind="long", header=h)
+        v = check_decode(h, enc, case)
+        if not v and h["ftype"] == S.TYPE_AU2:
+            v = check_decode(h, enc, case, raw=True)
+        return core.result(v, obs=len(fb), impl_calls=1,
+                           sample=dict(header=h, file_bytes=len(fb), frames=enc.frames(), blocks=len(enc.blocks)))
+    viol, evals, skipped, nhung = [], 0, 0, 0
+    for L in p["cuts"]:
+        if 8 * (L - 1029) >= enc.cmd_ends[-1]:
+            skipped += 1
+            continue
+        r = real_decode(fb[:L])
+        evals += 1
+        v = _fault_verdict(h, r, "truncated_accepted", "prefix of %d/%d bytes of a long stream" % (L, len(fb)),
+                           dict(kind="long", header=h, cuts=[L]), dict(stage="refill"))
+        if len(viol) < 6:
+            viol.extend(v)
+        nhung += hung(v)
+        if nhung >= 2:
+            break
+    return core.result(viol, nontrivial=evals > 0, evals=evals, nontrivial_count=evals, skipped=skipped,
+                       impl_calls=evals, obs=p["cuts"][0], capped=HANG_CAP if nhung >= 2 else None,
+                       sample=dict(header=h, cuts=p["cuts"]))
+
+
+def _long_points(seed):
+    pts = []
+    for h in long_headers():
+        pts.append(dict(header=h))
+        for g in long_cut_groups(h, seed):
+            for i in range(0, len(g), 3):
+                pts.append(dict(header=h, cuts=g[i:i + 3]))
+    return pts
+
+
+# ------------------------------------------------------------------ vectors / oracle validation
 
 
 def _vectors():
@@ -47,8 +776,138 @@ def _vector(name):
     return core.result(viol, obs=name, sample=dict(vector=name, samples=int(wav.shape[0])))
 
 
-def subchecks(tier, seed):
-    return [core.SubCheck(
-        "vectors", _vectors(), _vector,
-        "each sph2pipe shorten vector decoded from a path and from a stream equals its reference WAV",
-        replay=lambda case: _vector(case["name"]), kind="replay")]
+def _model_vector(name):
+    """oracle validation: the MODEL decoder must read the real vectors (a failure here is a
+    harness error, not a finding about the library)"""
+    ((_, ok, msg),) = S.check_vectors(core.REPO, only=name)
+    if not ok:
+        raise core.HarnessError("the shorten reference model does not decode %s_shn.sph to its WAV" % name)
+    return core.result([], obs=msg, sample=dict(vector=name, model=msg))
+
+
+def _ulaw_table(shift):
+    """the independently derived inward order must be the inverse of the decoder's outward table
+    on every representable code (else: harness limitation, reported as a harness error)"""
+    from pydrobert.speech import _sphere
+
+    mm = S.UlawMap.get(shift)
+    row = [int(x) for x in _sphere.ULAW_OUTWARD[shift]]
+    bad = []
+    for c, v in sorted(mm.inward.items()):
+        got = _sphere.NEGATIVE_ULAW_ZERO if v == -1 else row[v + 128] if v >= 0 else row[v + 129]
+        if got != c:
+            bad.append((c, v, got))
+    exp = [c for c in range(256) if S.ulaw_expand(c) != int(_sphere.ULAW2PCM[c])]
+    if bad or exp:
+        raise core.HarnessError(
+            "mu-law order derived from G.711 is not the inverse of the decoder's table at shift %d "
+            "(%d codes, e.g. %r; %d expansion differences): the mu-law part of the oracle is not "
+            "independent" % (shift, len(bad), bad[:3], len(exp)))
+    return core.result([], obs=len(mm.inward), evals=len(mm.inward),
+                       sample=dict(shift=shift, representable_codes=len(mm.inward)))
+
+
+# ------------------------------------------------------------------ sub-checks
+
+
+def _replay(seed):
+    def replay(case):
+        k = case.get("kind")
+        if k == "trace":
+            return replay_trace(case, seed)
+        if k == "prefix":
+            return _trunc_point(dict(header=case["header"], length=case["length"]), seed)
+        if k == "badcmd":
+            return _badcmd_point(dict(header=case["header"], nops=case["nops"], code=case["code"]), seed)
+        if k == "long":
+            return _long_point(dict((kk, v) for kk, v in case.items() if kk != "kind"), seed)
+        if k == "badver":
+            return _badver_point(dict(header=case["header"], byte=case["byte"]), seed)
+        raise core.HarnessError("unknown case %r" % (case,))
+    return replay
+
+
+def subchecks(tier, seed, only=None):
+    thorough = tier == "thorough"
+    replay = _replay(seed)
+    d_all, d_core = (4, 5) if thorough else (3, 4)
+    axes_seq = dict(alphabet=[op_name(o) for o in ALPHABET], version=[1, 2], ftype=[3, 5, 8],
+                    channels=[1, 2], mean_length=[0, 4], block_size=4, max_lpc=3)
+    scs = [
+        core.SubCheck(
+            "vectors", _vectors(), _vector,
+            "each sph2pipe shorten vector decoded from a path and from a stream equals its reference WAV",
+            replay=lambda case: _vector(case["name"]), kind="replay"),
+        core.SubCheck(
+            "model_vectors", _vectors(), _model_vector,
+            "the reference model's own decoder reads each sph2pipe vector exactly (oracle validation)",
+            kind="replay"),
+        core.SubCheck(
+            "ulaw_tables", [0, 2], _ulaw_table,
+            "mu-law inward order derived by ranking G.711 values vs the decoder's outward table, "
+            "for the shifts the alphabet uses", kind="replay"),
+        core.SubCheck(
+            "sequences", _seq_points(headers24(), d_all, 1 if not thorough else 2, True),
+            lambda p: _seq_point(p, seed),
+            "every valid command sequence of length 1..%d over the 14-command alphabet x 24 headers, "
+            "completed to a frame boundary + QUIT, encoded by the model and decoded by the real "
+            "decoder (mu-law additionally as raw codes); a point = header x first command(s); "
+            "evaluations = real decodes" % d_all,
+            axes=dict(axes_seq, depth=d_all), replay=replay, chunk=1, kind="trace_replay"),
+        core.SubCheck(
+            "sequences_core", _seq_points(core_headers(), d_core, 1 if not thorough else 2, False),
+            lambda p: _seq_point(p, seed),
+            "as 'sequences' with length up to %d for the 4 core headers (version x {S16HL, mu-law}, "
+            "2 channels, mean length 4, block size 4) and five variants of each: 3 channels; initial "
+            "block size 2; mean length 1; a shorter final block; 1 channel with max LPC order 4 "
+            "(history 4, the order-3 QLPC replaced by order 4 [11,31,-8,-8]), mean length 1 and a "
+            "shorter final block (mu-law as int16 only)" % d_core,
+            axes=dict(axes_seq, depth=d_core, variants=["base", "nchan=3", "bs0=2", "nmean=1", "final_short",
+                                                        "nchan=1,maxnlpc=4,nmean=1,final_short"]),
+            replay=replay, chunk=1, kind="trace_replay"),
+    ]
+    if only in (None, "model_bfs"):
+        depth = 8
+        scs.append(core.SubCheck(
+            "model_bfs", _bfs_points(bfs_headers(tier), seed, depth), lambda p: _bfs_point(p, seed),
+            "BFS to depth %d on the format model, states merged by (bit cursor mod 32, channel, block "
+            "size, shift, provenance of history/mean slots); every model transition is replayed as a "
+            "complete stream through the real decoder (mu-law compared as raw codes); a point = about 400 transitions of one header" % depth,
+            axes=dict(headers=len(bfs_headers(tier)), depth=depth,
+                      alphabet=[op_name(o) for o in ALPHABET]),
+            replay=replay, chunk=1, kind="model_bfs"))
+    if thorough and only in (None, "model_bfs_fine"):
+        scs.append(core.SubCheck(
+            "model_bfs_fine", _bfs_points(bfs_headers("quick"), seed, 8, fine=True),
+            lambda p: _bfs_point(p, seed),
+            "as model_bfs for the 8 quick-tier headers with a finer merge key: additionally the kind of "
+            "command (DIFF/QLPC/ZERO) that produced the latest block of every channel",
+            axes=dict(headers=8, depth=8, alphabet=[op_name(o) for o in ALPHABET]),
+            replay=replay, chunk=1, kind="model_bfs"))
+    if only in (None, "long_stream"):
+        scs.append(core.SubCheck(
+            "long_stream", _long_points(seed), lambda p: _long_point(p, seed),
+            "3 streams of > 19 KiB (block size 256/64, all block commands, BITSHIFT, shorter final "
+            "block) so that the bit reader tops up its buffer several times: full decode equals the "
+            "encoded samples, and byte prefixes ending within +-5 bytes of each of the first reader "
+            "refill points or inside the QUIT word must raise IOError",
+            replay=replay, chunk=1, kind="trace_replay"))
+    fh = fault_headers()
+    scs += [
+        core.SubCheck(
+            "truncation", [dict(header=h) for h in fh], lambda p: _trunc_point(p, seed),
+            "every byte prefix (the 'ajkg' magic kept, so that the file is a shorten stream) of %d small "
+            "streams that cuts the version byte or at least one bit of the stream header or of a "
+            "command up to QUIT must raise IOError; prefixes that only cut the zero padding of the "
+            "last word are skipped" % len(fh),
+            replay=replay, chunk=1, kind="fault"),
+        core.SubCheck(
+            "bad_command", [dict(header=h) for h in fh], lambda p: _badcmd_point(p, seed),
+            "function codes %s placed after 0..%d valid commands (all bit alignments that arise) must "
+            "raise IOError" % (BAD_CODES, len(FAULT_OPS)), replay=replay, chunk=1, kind="fault"),
+        core.SubCheck(
+            "bad_version", [dict(header=h) for h in fh], lambda p: _badver_point(p, seed),
+            "every version byte other than 1 and 2 (254 values) must raise IOError", replay=replay,
+            chunk=1, kind="fault"),
+    ]
+    return scs
